@@ -102,7 +102,7 @@ def run(pid, tier):
     crashes = []
 
     def rundrv(j):
-        rc, o = V.run_driver(drv, [j[0], j[1]], timeout=1500)
+        rc, o = V.run_driver(drv, [j[0], j[1]], timeout=400 if tier == 'quick' else 3000)
         return j, rc, o
     with cfu.ThreadPoolExecutor(max_workers=V.NCPU) as ex:
         for j, rc, o in ex.map(rundrv, jobs):
